@@ -202,5 +202,5 @@ def bounds(tier):
 LEVEL_TEXT = ("bounded symbolic model checking: all 2^n placements of missing values in data and auxiliary inputs are one symbolic "
               "query per path of the real source; z3 proves missing => MISSING (UNKNOWN where undefined) and MISSING => a needed "
               "value is missing, for three carriers of missingness")
-LEVEL_NOTE = "bounds: n<=3/5; grid G; environment model validated by per-path witnesses"
+LEVEL_NOTE = "bounds: n<=3/6; grid G; environment model validated by per-path witnesses"
 TECHNIQUE = "symbolic execution of the real Python source over a modelled numpy/pandas + z3 (SMT)"
